@@ -1,11 +1,12 @@
 """C06 -- tank volumes integrate their net inflow and stay within their limits (integration step, bookkeeping, limit controls)."""
 import ast
+import os
 import re
 
 import sympy as sp
 
 from ..src import walk, calls, call_name, dotted, const, loc, unparse, norm, AnchorError, ExtractError, last_attr
-from ..symx import SymExec, Opaque, State, is_zero
+from ..symx import SymExec, Opaque, State, is_zero, CondExpr, Constraint, Ineq
 from ..cfg import CFG
 
 HYD = "wntr/sim/hydraulics.py"
@@ -34,11 +35,192 @@ def interp_hook(name, node, args, kwargs, st, ex, recv):
     return NotImplemented
 
 
+# ------------------------------------------------------------------------------------------------ path conditions as atoms
+class BoolTerm(Opaque):
+    """an undecided boolean combination of uninterpreted values: op in ('and', 'or', 'not', 'ite')"""
+    __slots__ = ("op", "vals")
+
+    def __init__(self, op, vals, text):
+        Opaque.__init__(self, text)
+        self.op = op
+        self.vals = list(vals)
+
+
+_CONSTLIKE = re.compile(r"^(None|True|False|[-+]?[0-9.]+(e[-+]?[0-9]+)?|'.*'|\".*\")$")
+
+
+def eq_atom(a, b, sym="=="):
+    """canonical text of the atom `a == b` / `a is b`: constants on the right, otherwise the operands in text order"""
+    if _CONSTLIKE.match(a) and not _CONSTLIKE.match(b):
+        a, b = b, a
+    elif not _CONSTLIKE.match(b) and b < a:
+        a, b = b, a
+    return "%s %s %s" % (a, sym, b)
+
+
+class AtomExec(SymExec):
+    """SymExec whose path conditions are ATOMS, so that rules can ask `is X known true / false on this path` whatever shape
+    the test was written in: `and` / `or` / `not` are split with short-circuit semantics (also when the combination was first
+    stored in a local), `a != b` / `a is not b` are recorded as the negation of `a == b` / `a is b` with the operands in a
+    canonical order, `x == False` as `not x`, `bool(x)` as x; a call through a local that aliases an uninterpreted callable
+    (`rel = self._relation; rel(a, b)`) is named after the callable and remembered in `applied` (text -> (callable, args))."""
+
+    def __init__(self, *a, **k):
+        SymExec.__init__(self, *a, **k)
+        self.applied = {}
+
+    @staticmethod
+    def truth(v):
+        if isinstance(v, bool):
+            return v
+        if v is None:
+            return False
+        if isinstance(v, (int, float, str)):
+            return bool(v)
+        if isinstance(v, (list, tuple, dict)):
+            return bool(v)
+        if isinstance(v, (CondExpr, Constraint, Ineq)):
+            return True
+        return None
+
+    def e_BoolOp(self, n, st):
+        vals = [self.ev(v, st) for v in n.values]
+        isand = isinstance(n.op, ast.And)
+        tr = [self.truth(v) for v in vals]
+        if all(t is not None for t in tr):
+            return all(tr) if isand else any(tr)
+        if isand and any(t is False for t in tr):
+            return False
+        if (not isand) and any(t is True for t in tr):
+            return True
+        vals = [v for v, t in zip(vals, tr) if t is None]
+        if len(vals) == 1:
+            return vals[0]
+        return BoolTerm("and" if isand else "or", vals, (" and " if isand else " or ").join(self.text(v) for v in vals))
+
+    def negate(self, v):
+        t = self.truth(v)
+        if t is not None:
+            return not t
+        if isinstance(v, BoolTerm) and v.op == "not":
+            return v.vals[0]
+        return BoolTerm("not", [v], "not " + self.text(v))
+
+    def e_UnaryOp(self, n, st):
+        if isinstance(n.op, ast.Not):
+            return self.negate(self.ev(n.operand, st))
+        return SymExec.e_UnaryOp(self, n, st)
+
+    def e_IfExp(self, n, st):
+        c = self.ev(n.test, st)
+        t = self.truth(c)
+        if t is not None:
+            return self.ev(n.body if t else n.orelse, st)
+        a, b = self.ev(n.body, st), self.ev(n.orelse, st)
+        if all(isinstance(x, (bool, Opaque)) or x is None for x in (a, b)):      # a choice between two uninterpreted / boolean values: split when branched on
+            return BoolTerm("ite", [c, a, b], "(%s if %s else %s)" % (self.text(a), self.text(c), self.text(b)))
+        return SymExec.e_IfExp(self, n, st)
+
+    def compare(self, op, a, b):
+        opn = type(op).__name__
+        if opn in ("Eq", "NotEq", "Is", "IsNot"):
+            for x, y in ((a, b), (b, a)):
+                if y is False and isinstance(x, Opaque):      # x == False  ~  not x
+                    return self.negate(x) if opn in ("Eq", "Is") else x
+        r = SymExec.compare(self, op, a, b)
+        if isinstance(r, Opaque) and not isinstance(r, BoolTerm) and opn in ("Eq", "NotEq", "Is", "IsNot"):
+            atom = Opaque(eq_atom(self.text(a), self.text(b), "==" if opn in ("Eq", "NotEq") else "is"))
+            return atom if opn in ("Eq", "Is") else self.negate(atom)
+        return r
+
+    def e_Call(self, n, st):
+        if isinstance(n.func, ast.Name) and n.func.id == "bool" and len(n.args) == 1 and not n.keywords:
+            return self.ev(n.args[0], st)
+        if isinstance(n.func, ast.Name) and isinstance(st.env.get(n.func.id), Opaque) and not n.keywords:
+            f = st.env[n.func.id]
+            args = [self.ev(a, st) for a in n.args]
+            txt = "%s(%s)" % (f.text, ", ".join(self.text(a) for a in args))
+            self.applied[txt] = (f.text, args)
+            return Opaque(txt)
+        return SymExec.e_Call(self, n, st)
+
+    def split(self, v, st):
+        """-> [(state, truth)]: the states in which the value v is true / false, forking on the atoms not yet known"""
+        t = self.truth(v)
+        if t is not None:
+            return [(st, t)]
+        if isinstance(v, BoolTerm):
+            if v.op == "not":
+                return [(s, not t_) for s, t_ in self.split(v.vals[0], st)]
+            if v.op == "ite":
+                return [r for s, t_ in self.split(v.vals[0], st) for r in self.split(v.vals[1] if t_ else v.vals[2], s)]
+            out = []
+            stop = v.op == "or"                                    # `or` stops at the first true operand, `and` at the first false
+            rest = v.vals[1:]
+            restv = rest[0] if len(rest) == 1 else BoolTerm(v.op, rest, (" %s " % v.op).join(self.text(x) for x in rest))
+            for s, t_ in self.split(v.vals[0], st):
+                if t_ == stop:
+                    out.append((s, t_))
+                else:
+                    out.extend(self.split(restv, s))
+            return out
+        txt = self.text(v)
+        known = st.cond(txt)
+        if known is None and self.test_hook:
+            known = self.test_hook(txt, None, st)
+        if known is not None:
+            return [(st, bool(known))]
+        a, b = st, st.fork()
+        a.conds.append((txt, True))
+        b.conds.append((txt, False))
+        return [(a, True), (b, False)]
+
+    def branch(self, test, body, orelse, st):
+        outs = []
+        for s, t in self.split(self.ev(test, st), st):
+            outs.extend(self.block(body if t else orelse, [s]))
+        return outs
+
+
+def test_literals(e, pol=True):
+    """the literals {(text, polarity)} that necessarily hold when test `e` has outcome `pol`: conjunctions (and refuted disjunctions) are
+    split, `not x` / `x == False` / `x is False` / `x != True` flip the polarity; anything else is one uninterpreted literal"""
+    if isinstance(e, ast.UnaryOp) and isinstance(e.op, ast.Not):
+        return test_literals(e.operand, not pol)
+    if isinstance(e, ast.BoolOp) and isinstance(e.op, ast.And if pol else ast.Or):
+        out = set()
+        for v in e.values:
+            out |= test_literals(v, pol)
+        return out
+    if isinstance(e, ast.Compare) and len(e.ops) == 1 and isinstance(e.ops[0], (ast.Eq, ast.NotEq, ast.Is, ast.IsNot)):
+        l, r = e.left, e.comparators[0]
+        for x, y in ((l, r), (r, l)):
+            if isinstance(y, ast.Constant) and isinstance(y.value, bool):
+                same = isinstance(e.ops[0], (ast.Eq, ast.Is)) == y.value        # `x == True`, `x != False` keep the polarity of x
+                return test_literals(x, pol if same else not pol)
+    return {(unparse(e), pol)}
+
+
+def guard_literals(node, stop):
+    """literals that hold whenever statement `node` executes, collected from the if-statements enclosing it (up to `stop`)"""
+    out = set()
+    cur = node
+    par = getattr(cur, "_parent", None)
+    while par is not None and par is not stop and not isinstance(par, (ast.FunctionDef, ast.AsyncFunctionDef)):
+        if isinstance(par, ast.If):
+            if any(cur is x for x in par.body):
+                out |= test_literals(par.test, True)
+            elif any(cur is x for x in par.orelse):
+                out |= test_literals(par.test, False)
+        cur, par = par, getattr(par, "_parent", None)
+    return out
+
+
 def run(repo, chk):
     # ---------------------------------------------------------------- R-C06-1 Euler step
     fn = repo.func(HYD, "update_tank_heads")
     chk.fn(fn)
-    ex = SymExec(call_hook=interp_hook)
+    ex = AtomExec(call_hook=interp_hook)          # path conditions as canonical atoms: `is not None`, swapped operands, and/or shapes do not matter
     outs = ex.run(fn)
     sy = ex.sym
     dt_ref = sy("wn.sim_time") - sy("wn._prev_sim_time")
@@ -52,7 +234,7 @@ def run(repo, chk):
         ctx = st[0][4][-1] if len(st[0]) > 4 and st[0][4] else ""
         chk.expect(ctx == "wn.tanks()", "R-C06-1", "update_tank_heads ranges over all tanks", loc(fn), found=ctx)
         val = ex.S(st[0][2])
-        none = [v for t, v in o.conds if t == "tank.vol_curve is None"]
+        none = [v for t, v in o.conds if t == eq_atom("tank.vol_curve", "None", "is")]
         if none and none[0]:
             seen["cyl"] += 1
             want = prevh + dem * dt_ref / (sp.pi * D ** 2 / 4)
@@ -60,7 +242,7 @@ def run(repo, chk):
                        "explicit Euler step with the tank's cross-section, net inflow and the elapsed time since the last accepted solve", expected=str(want), found=str(val))
         elif none and not none[0]:
             seen["curve"] += 1
-            same = [v for t, v in o.conds if "tank.head == tank._prev_head" in t]
+            same = [v for t, v in o.conds if t == eq_atom("tank.head", "tank._prev_head")]
             interps = [a for a in val.atoms(sp.Function) if a.func.__name__ == "interp"]
             outer = [a for a in interps if any(isinstance(b, sp.Function) and b.func.__name__ == "interp" for b in a.args[0].atoms(sp.Function))]
             okc = len(outer) == 1
@@ -90,13 +272,19 @@ def run(repo, chk):
             chk.expect(bool(okc), "R-C06-1", "volume-curve tank: V1 = V(level) + demand*dt and new level = V^-1(V1) on the same curve%s" % (" [head unchanged since]" if same and same[0] else " [head already advanced]"),
                        loc(fn), detail, found=str(val)[:300])
     chk.expect(seen["cyl"] >= 1 and seen["curve"] >= 1, "R-C06-1", "both tank geometries are handled", loc(fn), found=seen)
-    dts = [e for o in outs for e in o.events if e[0] == "store" and False]
-    # dt definition
-    dtasg = [s for s in walk(fn) if isinstance(s, ast.Assign) and dotted(s.targets[0]) == "dt"]
-    chk.expect(len(dtasg) == 1 and unparse(dtasg[0].value).replace(" ", "") == "wn.sim_time-wn._prev_sim_time", "R-C06-1", "dt is the time since the last accepted solve", loc(fn), found=unparse(dtasg[0].value) if dtasg else None)
+    # dt definition: the value a local `dt` has at the end of every path (when the step is written without such a local, the two formulas above, which
+    # are compared against sim_time - _prev_sim_time, already decide it)
+    dtv = [o.env["dt"] for o in outs if "dt" in o.env]
+    okdt = True
+    for v in dtv:
+        try:
+            okdt = okdt and is_zero(ex.S(v) - dt_ref)
+        except ExtractError:
+            okdt = False
+    chk.expect(okdt, "R-C06-1", "dt is the time since the last accepted solve", loc(fn), expected=str(dt_ref), found=str(dtv[0]) if dtv else "no local dt")
     gv = repo.func(ELEM, "Tank.get_volume")
     chk.fn(gv)
-    exv = SymExec(call_hook=interp_hook)
+    exv = AtomExec(call_hook=interp_hook)
     gseen = set()
     for o in exv.run(gv):
         if o.raised or o.ret is None:
@@ -116,14 +304,38 @@ def run(repo, chk):
             chk.expect(bool(okg), "R-C06-1", "Tank.get_volume (curve) interpolates the volume curve at the level", loc(gv), found=str(o.ret)[:120])
             gseen.add("curve")
     chk.expect(gseen == {"cyl", "curve"}, "R-C06-1", "Tank.get_volume handles both geometries", loc(gv), found=sorted(gseen))
+    # Tank.level and the init_level setter, as formulas (a property and its backing field `_x` are the same quantity)
+    def pub(exq, v):
+        e = exq.S(v)
+        return e.subs({y: exq.sym(str(y).replace("self._", "self.")) for y in e.free_symbols if str(y).startswith("self._")})
     lv = repo.func(ELEM, "Tank.level", kind="getter")
-    r = [s for s in walk(lv) if isinstance(s, ast.Return)]
-    chk.expect(bool(r) and unparse(r[0].value).replace(" ", "") == "self.head-self.elevation", "R-C06-1", "Tank.level = head - elevation", loc(lv), found=unparse(r[0].value) if r else None)
+    exl = SymExec()
+    rets = [o.ret for o in exl.run(lv) if not o.raised]
+    okl = bool(rets)
+    for r in rets:
+        try:
+            okl = okl and r is not None and is_zero(pub(exl, r) - (exl.sym("self.head") - exl.sym("self.elevation")))
+        except ExtractError:
+            okl = False
+    chk.expect(okl, "R-C06-1", "Tank.level = head - elevation", loc(lv), found=[str(r) for r in rets])
     il = repo.func(ELEM, "Tank.init_level", kind="setter")
-    asg = [s for s in walk(il) if isinstance(s, ast.Assign) and unparse(s.targets[0]) == "self._head"]
-    chk.expect(bool(asg) and set(unparse(asg[0].value).replace(" ", "").split("+")) == {"self.elevation", "self._init_level"} or
-               (bool(asg) and set(unparse(asg[0].value).replace(" ", "").split("+")) == {"self.elevation", "value"}), "R-C06-1", "setting init_level sets head = elevation + init_level", loc(il),
-               found=unparse(asg[0].value) if asg else None)
+    exi = SymExec()
+    oki, found_i = False, []
+    for o in exi.run(il):
+        if o.raised:
+            continue
+        hs = [e for e in o.events if e[0] == "store" and e[1] == "self._head"]
+        found_i.append([str(e[2]) for e in hs])
+        try:
+            val = pub(exi, hs[-1][2]) if hs else None
+        except ExtractError:
+            val = None
+        newv = [e[2] for e in o.events if e[0] == "store" and e[1] == "self._init_level"]      # the value the setter stores as the new init_level
+        cands = [exi.sym("self.init_level")] + [exi.S(x) for x in newv[-1:] if isinstance(x, (Opaque, sp.Basic, int, float))]
+        oki = val is not None and any(is_zero(val - (exi.sym("self.elevation") + c_)) for c_ in cands)
+        if not oki:
+            break
+    chk.expect(oki, "R-C06-1", "setting init_level sets head = elevation + init_level", loc(il), found=found_i)
     chk.floor("R-C06-1", 10)
 
     # ---------------------------------------------------------------- R-C06-2 bookkeeping
@@ -158,30 +370,24 @@ def run(repo, chk):
         if gt:
             w = g.can_reach_avoiding(g.succ_on(gt[0], True)[0], [u], [], drop_back=True) if g.succ_on(gt[0], True) else None
             chk.expect(w is None, "R-C06-2", "a step that is going to be re-solved is not stored as accepted", loc(rs), found=g.path_text(w) if w else None)
-    okpre = len(upd_pre) == 1
-    if okpre:
-        p = getattr(g.node_ast(upd_pre[0]), "_parent", None)
-        okpre = isinstance(p, ast.If) and unparse(p.test) == "first_step"
-    chk.expect(okpre, "R-C06-2", "before the loop the previous values are initialised only on a first step", loc(rs))
+    okpre = len(upd_pre) == 1 and guard_literals(g.node_ast(upd_pre[0]), rs) == {("first_step", True)}
+    chk.expect(okpre, "R-C06-2", "before the loop the previous values are initialised only on a first step", loc(rs),
+               found=[sorted(guard_literals(g.node_ast(u), rs)) for u in upd_pre])
     uth = g.calling("update_tank_heads")
     comp = g.calling("_compute_next_timestep_and_run_presolve_controls_and_rules")
     shp = g.calling("source_head_param")
     if not (uth and comp and shp):
         raise AnchorError("run_sim: update_tank_heads / scheduler / source_head_param calls missing")
     between = [n for n in uth if n in g.reachable(comp[0], g.view(drop_back=True)) and shp[0] in g.reachable(n, g.view(drop_back=True))]
-    okb = False
-    for n in between:
-        p = getattr(g.node_ast(n), "_parent", None)
-        if isinstance(p, ast.If):
-            t = re.sub(r"[\s()]", "", unparse(p.test))
-            if t in ("notfirst_stepandnotresolve", "notresolveandnotfirst_step"):
-                okb = True
+    # the guards are read as sets of literals from all enclosing ifs: nesting, operand order, `x == False` / `not x` do not matter
+    wloop = [n for n in g.loop_heads if isinstance(n, ast.While)][0]
+    okb = any(guard_literals(g.node_ast(n), wloop) == {("first_step", False), ("resolve", False)} for n in between)
     chk.expect(okb, "R-C06-2", "every non-first, non-resolve iteration recomputes tank heads after the step's final time is known and before the source heads are refreshed", loc(rs),
-               found=[g.label(n) for n in between])
+               expected="a call guarded by exactly (not first_step) and (not resolve)", found=[(g.label(n), sorted(guard_literals(g.node_ast(n), wloop))) for n in between])
     early = [n for n in uth if comp[0] in g.reachable(n, g.view(drop_back=True))]
     for n in early:
-        p = getattr(g.node_ast(n), "_parent", None)
-        chk.expect(isinstance(p, ast.If) and unparse(p.test).replace(" ", "") == "notfirst_step", "R-C06-2", "tank heads are projected before the controls are checked, except on a first step", loc(rs, g.node_ast(n)))
+        lits = guard_literals(g.node_ast(n), wloop)
+        chk.expect(("first_step", False) in lits and not any(t == "first_step" and v for t, v in lits), "R-C06-2", "tank heads are projected before the controls are checked, except on a first step", loc(rs, g.node_ast(n)), found=sorted(lits))
     shn = repo.func("wntr/sim/models/param.py", "source_head_param")
     s_ = unparse(shn)
     chk.expect("m.source_head[node_name].value = node.head" in s_ and "wn.tanks()" in s_, "R-C06-2", "source_head_param copies every tank's head into the model", loc(shn))
@@ -199,7 +405,7 @@ def run(repo, chk):
         raise AnchorError("_get_all_tank_controls: expected a min-level loop and a max-level loop, found %d" % len(inner))
     for li, (lp, lim) in enumerate(zip(inner, ("min", "max"))):
         pre = [s for s in outer[0].body if s.lineno < lp.lineno and isinstance(s, ast.Assign)]
-        ex3 = SymExec()
+        ex3 = AtomExec()
         st0 = State({"self": Opaque("self"), "tank": Opaque("tank"), "tank_name": Opaque("tank_name"), "tank_controls": []})
         for s in pre:
             ex3.stmt(s, st0)
@@ -207,7 +413,8 @@ def run(repo, chk):
         hv = st0.env.get(headname)
         want_h = ex3.sym("tank.%s_level" % lim) + ex3.sym("tank.elevation")
         chk.expect(hv is not None and is_zero(ex3.S(hv) - want_h), "R-C06-3", "%s limit threshold is %s_level + elevation (a head)" % (lim, lim), loc(tc), found=str(hv))
-        chk.expect(unparse(lp.iter) == "all_links" and "get_links_for_node(tank_name, 'ALL')" in unparse(outer[0]), "R-C06-3", "%s limit: all links at the tank are considered" % lim, loc(tc, lp))
+        itv = ex3.ev(lp.iter, st0)              # the iterable, with locals resolved; flag 'ALL' is get_links_for_node's default
+        chk.expect(isinstance(itv, Opaque) and re.fullmatch(r"self\._wn\.get_links_for_node\(tank_name(, (flag=)?'ALL')?\)", itv.text) is not None, "R-C06-3", "%s limit: all links at the tank are considered" % lim, loc(tc, lp), found=str(itv))
         ex3.bind_loop_target(lp.target, st0)
         paths = ex3.block(lp.body, [st0])
         Htol = ex3.sym("self._Htol")
@@ -218,11 +425,11 @@ def run(repo, chk):
         for o in paths:
             if o.raised:
                 continue
-            c = dict(o.conds)
+            c = dict(o.conds)                 # atoms (AtomExec): the same facts whatever and/or/not/helper shape the tests have
             ispipe = c.get("isinstance(self._wn.get_link(link_name), Pipe)")
             ispump = c.get("isinstance(self._wn.get_link(link_name), Pump)")
             cv = c.get("self._wn.get_link(link_name).check_valve")
-            at_skip_end = [v for t, v in o.conds if t == "self._wn.get_link(link_name).%s == tank_name" % skip_end]
+            at_skip_end = [v for t, v in o.conds if t == eq_atom("self._wn.get_link(link_name).%s" % skip_end, "tank_name")]
             kind = "pipe+cv" if (ispipe and cv) else ("pipe" if ispipe else ("pump" if ispump else "valve/other"))
             if ispipe and ispump:
                 continue                      # infeasible combination of the two isinstance tests
@@ -271,7 +478,7 @@ def run(repo, chk):
                 chk.expect(k2["priority"].text == "ControlPriority.high" and "LinkStatus.Open" in k2["then_action"].text and "AndCondition" in k2["condition"].text and types[2][1] == "_ControlType.postsolve", "R-C06-3",
                            "%s: re-opening control 2 is high priority, post-solve, opening, conjunction of both conditions" % case, loc(tc, lp), found=ctl[2][1][:160])
                 # the `other node` is the end opposite to the tank
-                st_is = [v for t, v in o.conds if t == "self._wn.get_link(link_name).start_node is tank"]
+                st_is = [v for t, v in o.conds if t in (eq_atom("self._wn.get_link(link_name).start_node", "tank", "is"), eq_atom("self._wn.get_link(link_name).start_node", "tank"))]
                 if st_is:
                     wanto = "self._wn.get_link(link_name).end_node" if st_is[0] else "self._wn.get_link(link_name).start_node"
                     chk.expect(r2[3].text == wanto, "R-C06-3", "%s: the comparison node is the link's other end [tank is start=%s]" % (case, st_is[0]), loc(tc, lp), found=r2[3].text)
@@ -283,46 +490,108 @@ def run(repo, chk):
     # ---------------------------------------------------------------- R-C06-4 partial step at the limit
     tl = repo.func(CTRL, "TankLevelCondition.evaluate")
     chk.fn(tl)
-    ex4 = SymExec(call_hook=lambda name, node, args, kwargs, st, ex, recv: (args[0] if name in ("np.round",) else (args[0] if name == "bool" else NotImplemented)))
-    src = unparse(tl)
-    exprs = [c for c in calls(tl) if call_name(c) == "math.floor"]
-    okcyl = False
-    okcur = False
-    for c in exprs:
-        t = unparse(c.args[0]).replace(" ", "").replace("\n", "")
-        if "math.pi/4.0*self._source_obj.diameter**2/self._source_obj.demand" in t and "(cur_value-thresh_value)" in t:
-            okcyl = True
-        if "(cur_value_volume-thresh_volume)/self._source_obj.demand" in t:
-            okcur = True
-    e5 = SymExec()
-    cv, tv, Dm, dm = (e5.sym(x) for x in ("cur_value", "thresh_value", "self._source_obj.diameter", "self._source_obj.demand"))
-    cylf = [c for c in exprs if "diameter" in unparse(c)]
-    if cylf:
-        val = e5.S(e5.ev(cylf[0].args[0], State({"cur_value": Opaque("cur_value"), "thresh_value": Opaque("thresh_value"), "self": Opaque("self")})))
-        okcyl = is_zero(val - (cv - tv) * sp.pi / 4 * Dm ** 2 / dm)
-    chk.expect(okcyl, "R-C06-4", "tank-level crossing: partial step = floor((level - threshold) * pi/4 * D^2 / net inflow) seconds", loc(tl), found=unparse(cylf[0].args[0]) if cylf else None)
-    curf = [c for c in exprs if "volume" in unparse(c)]
-    if curf:
-        val = e5.S(e5.ev(curf[0].args[0], State({"cur_value_volume": Opaque("cv"), "thresh_volume": Opaque("tvv"), "self": Opaque("self")})))
-        okcur = is_zero(val - (e5.sym("cv") - e5.sym("tvv")) / dm)
-        gvs = [unparse(c) for c in calls(tl) if last_attr(c) == "get_volume"]
-        okcur = okcur and "self._source_obj.get_volume(level)" in gvs and "self._source_obj.get_volume(thresh_level)" in gvs
-    chk.expect(okcur, "R-C06-4", "tank-level crossing with a volume curve: partial step = floor((V(level) - V(threshold)) / net inflow)", loc(tl), found=unparse(curf[0].args[0]) if curf else None)
-    remap = {}
-    for n in walk(tl):
-        if isinstance(n, ast.If) and re.fullmatch(r"relation is Comparison\.(\w+)", unparse(n.test)):
-            asg = [x for x in n.body if isinstance(x, ast.Assign) and unparse(x.targets[0]) == "relation"]
-            if asg:
-                remap[unparse(n.test).split(".")[-1]] = unparse(asg[0].value)
-    chk.expect(remap == {"gt": "Comparison.ge", "lt": "Comparison.le"}, "R-C06-4", "strict tank-level relations are treated as inclusive (a level exactly at the limit triggers)", loc(tl), found=remap)
-    lastv = [s for s in tl.body if isinstance(s, ast.Assign) and unparse(s.targets[0]) == "self._last_value"]
-    chk.expect(len(lastv) == 1 and unparse(lastv[0].value) == "cur_value", "R-C06-4", "the crossing detector's last value is updated on every evaluation (top-level statement)", loc(tl))
+    # the whole method is executed symbolically (path conditions as atoms); every fact below is read off the paths, not off the text:
+    #   state      = the value returned: relation R applied to (current value, threshold)   [np.round is transparent]
+    #   partial    = the last value stored into self._backtrack on the path
+    # so locals, aliases of self._source_obj, hoisted sub-expressions, early returns / extracted helpers (inlined by E0) do not matter
+    SRC = "self._source_obj"
+
+    def hook4(name, node, args, kwargs, st, ex, recv):
+        last = (name or "").split(".")[-1]
+        if name in ("np.round", "numpy.round", "np.around", "numpy.around", "round") and args:
+            return args[0]
+        if last == "get_volume" and len(args) == 1 and not kwargs and isinstance(recv, Opaque):
+            return sp.Function("V")(ex.sym(recv.text), ex.S(args[0]))
+        return NotImplemented
+
+    def enum_hook(txt, node, st):
+        m = re.fullmatch(r"Comparison\.(\w+) (?:is|==) Comparison\.(\w+)", txt)     # two members of the Comparison enum
+        return (m.group(1) == m.group(2)) if m else None
+    ex4 = AtomExec(call_hook=hook4, test_hook=enum_hook)
+    outs4 = ex4.run(tl)
+    Dm, dm, elev = (ex4.sym(SRC + x) for x in (".diameter", ".demand", ".elevation"))
+    V = sp.Function("V")
+    srcsym = ex4.sym(SRC)
+
+    def fact(c, a, b):
+        for sym_ in ("is", "=="):
+            if eq_atom(a, b, sym_) in c:
+                return c[eq_atom(a, b, sym_)]
+        return None
+
+    def unfloor(v):
+        """int(floor(x)) / floor(x) -> x (None when the value is not rounded down to whole seconds)"""
+        try:
+            v = ex4.S(v)
+        except ExtractError:
+            return None
+        if isinstance(v, sp.Function) and v.func.__name__ == "int" and len(v.args) == 1:
+            v = v.args[0]
+        return v.args[0] if isinstance(v, sp.floor) else None
+    cyl_n, cyl_bad, cur_n, cur_bad = 0, [], {"head": 0, "level": 0}, []
+    remap, remap_bad, last_bad, guard_bad, n_partial, n_ret = {}, [], [], [], 0, 0
+    for o in outs4:
+        if o.raised:
+            continue
+        n_ret += 1
+        info = ex4.applied.get(o.ret.text) if isinstance(o.ret, Opaque) else None
+        if info is None or len(info[1]) != 2:
+            raise ExtractError("TankLevelCondition.evaluate: the returned state is not `relation(current value, threshold)`: %r" % (o.ret,))
+        R, (a, b) = info
+        cur, thr = ex4.S(a), ex4.S(b)
+        c = dict(o.conds)
+        # strict relations are made inclusive
+        nan = any(v and "isnan(" in t for t, v in o.conds)
+        for strict, incl in (("gt", "ge"), ("lt", "le")):
+            if fact(c, "self._relation", "Comparison." + strict) and not (nan and R == "np.greater"):   # (a NaN threshold replaces the relation altogether)
+                remap.setdefault(strict, set()).add(R)
+        # the crossing detector's last value
+        lst = [e for e in o.events if e[0] == "store" and e[1] == "self._last_value"]
+        if not (lst and ex4.same(lst[-1][2], a)):
+            last_bad.append(o.label()[-160:])
+        bts = [e for e in o.events if e[0] == "store" and e[1] == "self._backtrack"]
+        final = bts[-1][2] if bts else None
+        if final is None or (isinstance(final, (int, float, sp.Basic)) and final == 0):
+            continue
+        # ---- a partial step is computed on this path
+        n_partial += 1
+        crossed = [t for t, v in o.conds if not v and t in ex4.applied and ex4.applied[t][0] == R and len(ex4.applied[t][1]) == 2
+                   and ex4.same(ex4.applied[t][1][1], b) and not ex4.same(ex4.applied[t][1][0], a)]
+        if not (c.get(o.ret.text) is True and crossed):
+            guard_bad.append(o.label()[-200:])
+        inner = unfloor(final)
+        vc = fact(c, SRC + ".vol_curve", "None")
+        if vc is True:
+            cyl_n += 1
+            want = (cur - thr) * sp.pi / 4 * Dm ** 2 / dm
+            if inner is None or not is_zero(inner - want):
+                cyl_bad.append(str(final))
+        elif vc is False:
+            which = "head" if fact(c, "self._source_attr", "'head'") else ("level" if fact(c, "self._source_attr", "'level'") else None)
+            if which is None:
+                cur_bad.append("source attribute undetermined: %s" % final)
+                continue
+            cur_n[which] += 1
+            off = elev if which == "head" else 0            # a head is converted to a level before the curve is read
+            want = (V(srcsym, cur - off) - V(srcsym, thr - off)) / dm
+            if inner is None or not is_zero(inner - want):
+                cur_bad.append("[%s] %s" % (which, final))
+        else:
+            cyl_bad.append("geometry undetermined on path %s" % o.label()[-120:])
+    if not n_ret:
+        raise ExtractError("TankLevelCondition.evaluate: no returning path")
+    if os.environ.get("VERIF_DEBUG_C06"):
+        print("R-C06-4 paths=%d returning=%d partial=%d cyl=%d curve=%s remap=%s" % (len(outs4), n_ret, n_partial, cyl_n, cur_n, remap))
+    chk.expect(cyl_n >= 1 and not cyl_bad, "R-C06-4", "tank-level crossing: partial step = floor((level - threshold) * pi/4 * D^2 / net inflow) seconds", loc(tl),
+               expected="int(floor((cur - thresh) * pi/4 * D**2 / demand)) on every cylindrical-tank path", found=cyl_bad[:2] or "no such path")
+    chk.expect(cur_n["head"] >= 1 and cur_n["level"] >= 1 and not cur_bad, "R-C06-4", "tank-level crossing with a volume curve: partial step = floor((V(level) - V(threshold)) / net inflow)", loc(tl),
+               expected="int(floor((get_volume(level) - get_volume(threshold level)) / demand)) for head and level conditions", found=cur_bad[:2] or cur_n)
+    remap_txt = {k: "|".join(sorted(v)) for k, v in remap.items()}
+    chk.expect(remap_txt == {"gt": "Comparison.ge", "lt": "Comparison.le"}, "R-C06-4", "strict tank-level relations are treated as inclusive (a level exactly at the limit triggers)", loc(tl), found=remap_txt)
+    chk.expect(not last_bad, "R-C06-4", "the crossing detector's last value is updated on every evaluation (top-level statement)", loc(tl), found=last_bad[:2])
     # crossing guard: `state and not relation(<value at the last accepted step>, threshold)`; which variable carries that value is C05's R-C05-6
-    guard = [n for n in walk(tl) if isinstance(n, ast.If) and isinstance(n.test, ast.BoolOp) and isinstance(n.test.op, ast.And) and len(n.test.values) == 2
-             and unparse(n.test.values[0]) == "state" and isinstance(n.test.values[1], ast.UnaryOp) and isinstance(n.test.values[1].op, ast.Not)
-             and isinstance(n.test.values[1].operand, ast.Call) and unparse(n.test.values[1].operand.func) == "relation"
-             and "thresh_value" in unparse(n.test.values[1].operand.args[1])]
-    chk.expect(len(guard) == 1, "R-C06-4", "a partial step is computed only when the condition became true since the last accepted step (so (level - threshold)/inflow >= 0)", loc(tl))
+    chk.expect(n_partial >= 1 and not guard_bad, "R-C06-4", "a partial step is computed only when the condition became true since the last accepted step (so (level - threshold)/inflow >= 0)", loc(tl),
+               found=guard_bad[:2] or "no path computes a partial step")
 
 
     # ================================================================ rules added after the defect hunt (hunted/C06)
@@ -423,4 +692,44 @@ WITNESSES = [
     dict(name="elevation-omitted", file=CORE, old="            max_head = tank.max_level + tank.elevation", new="            max_head = tank.max_level", rule="R-C06-3"),
     dict(name="skip-wrong-orientation", file=CORE, old="                elif isinstance(link, Pump):\n                    if link.end_node_name == tank_name:\n                        continue", new="                elif isinstance(link, Pump):\n                    if link.start_node_name == tank_name:\n                        continue", rule="R-C06-3"),
     dict(name="backtrack-area", file=CTRL, old="                             *math.pi/4.0*self._source_obj.diameter**2", new="                             *math.pi/2.0*self._source_obj.diameter**2", rule="R-C06-4"),
+    dict(name="backtrack-sign", file=CTRL, old="self._backtrack = int(math.floor((cur_value - thresh_value)", new="self._backtrack = int(math.floor((thresh_value - cur_value)", rule="R-C06-4"),
+    dict(name="backtrack-not-floored", file=CTRL, old="self._backtrack = int(math.floor((cur_value - thresh_value)", new="self._backtrack = int(math.ceil((cur_value - thresh_value)", rule="R-C06-4"),
+    dict(name="backtrack-curve-head-as-level", file=CTRL, old="                        level = cur_value - self._source_obj.elevation\n", new="                        level = cur_value\n", rule="R-C06-4"),
+    dict(name="backtrack-curve-threshold-volume", file=CTRL, old="thresh_volume = self._source_obj.get_volume(thresh_level)", new="thresh_volume = self._source_obj.get_volume(thresh_value)", rule="R-C06-4"),
+    dict(name="strict-relation-kept", file=CTRL, old="        if relation is Comparison.lt:\n            relation = Comparison.le\n        if np.isnan(self._threshold):  # what", new="        if np.isnan(self._threshold):  # what", rule="R-C06-4"),
+    dict(name="last-value-only-on-crossing", file=CTRL, old="                                                      / self._source_obj.demand))\n        self._last_value = cur_value  # update the last value\n",
+         new="                                                      / self._source_obj.demand))\n            self._last_value = cur_value  # update the last value\n", rule="R-C06-4"),
+    dict(name="partial-step-without-crossing", file=CTRL, old="        if state and not relation(np.round(last_value,10), np.round(thresh_value,10)):\n", new="        if state:\n", rule="R-C06-4"),
+    dict(name="partial-step-crossing-of-other-threshold", file=CTRL, old="        if state and not relation(np.round(last_value,10), np.round(thresh_value,10)):\n", new="        if state and not relation(np.round(last_value,10), 0.0):\n", rule="R-C06-4"),
+    dict(name="level-without-elevation", file=ELEM, old="        return self.head - self.elevation\n", new="        return self.head\n", rule="R-C06-1"),
+    dict(name="init-level-setter-drops-elevation", file=ELEM, old="        self._head = self.elevation+self._init_level\n", new="        self._head = self._init_level\n", rule="R-C06-1"),
+    dict(name="only-outlet-links", file=CORE, old="all_links = self._wn.get_links_for_node(tank_name, 'ALL')", new="all_links = self._wn.get_links_for_node(tank_name, 'OUTLET')", rule="R-C06-3"),
+    dict(name="tank-heads-not-always-recomputed", file=CORE, old="            if not first_step and not resolve:\n", new="            if not first_step and not resolve and trial > 0:\n", rule="R-C06-2"),
+    # ---- behaviour-preserving variants (must stay quiet): the shapes of ref_C05_r1, ref_C06_r2, ref_C06_r3
+    dict(name="quiet-recompute-guard-nested-eq-false", file=CORE, silent=True, old="            if not first_step and not resolve:\n                wntr.sim.hydraulics.update_tank_heads(self._wn)\n",
+         new="            if resolve == False:\n                if not first_step:\n                    wntr.sim.hydraulics.update_tank_heads(self._wn)\n"),
+    dict(name="quiet-euler-step-renamed-locals", file=HYD, silent=True, old="    dt = wn.sim_time - wn._prev_sim_time   \n", new="    elapsed = wn.sim_time - wn._prev_sim_time\n",
+         also=[("        dV = q_net * dt\n", "        dV = elapsed * q_net\n"), ("            if tank.head == tank._prev_head:\n", "            if tank._prev_head == tank.head:\n")]),
+    dict(name="quiet-init-level-setter-uses-value", file=ELEM, silent=True, old="        self._head = self.elevation+self._init_level\n", new="        self._head = value + self._elevation\n"),
+    dict(name="quiet-all-links-inlined", file=CORE, silent=True, old="            for link_name in all_links:\n                link = self._wn.get_link(link_name)\n                link_has_cv = False  # flow leaving",
+         new="            for link_name in self._wn.get_links_for_node(tank_name):\n                link = self._wn.get_link(link_name)\n                link_has_cv = False  # flow leaving"),
+    dict(name="quiet-tank-alias-hoisted-area", file=CTRL, silent=True,
+         old="                if self._source_obj.vol_curve is None:\n                    self._backtrack = int(math.floor((cur_value - thresh_value)\n                             *math.pi/4.0*self._source_obj.diameter**2\n                             /self._source_obj.demand))\n",
+         new="                tank = self._source_obj\n                if tank.vol_curve is None:\n                    area = math.pi/4.0*tank.diameter**2\n                    overshoot = cur_value - thresh_value\n"
+             "                    seconds = overshoot*area/tank.demand\n                    self._backtrack = int(math.floor(seconds))\n"),
+    dict(name="quiet-crossing-guard-hoisted", file=CTRL, silent=True, old="        if state and not relation(np.round(last_value,10), np.round(thresh_value,10)):\n",
+         new="        rounded_thresh = np.round(thresh_value,10)\n        was_true = relation(np.round(last_value,10), rounded_thresh)\n        crossed = state and not was_true\n        if crossed:\n"),
+    dict(name="quiet-crossing-guard-eq-false", file=CTRL, silent=True, old="        if state and not relation(np.round(last_value,10), np.round(thresh_value,10)):\n",
+         new="        if relation(np.round(last_value,10), np.round(thresh_value,10)) == False and state:\n"),
+    dict(name="quiet-demand-guard-inverted", file=CTRL, silent=True, old="            if self._source_obj.demand != 0 and not self._source_obj.demand is None:\n",
+         new="            if not (self._source_obj.demand == 0 or self._source_obj.demand is None):\n"),
+    dict(name="quiet-strict-relation-elif", file=CTRL, silent=True, old="        if relation is Comparison.lt:\n            relation = Comparison.le\n", new="        elif Comparison.lt is relation:\n            relation = Comparison.le\n"),
+    dict(name="quiet-one-way-link-test-merged", file=CORE, silent=True,
+         old="                if isinstance(link, Pipe):\n                    if link.check_valve:\n                        if link.end_node_name == tank_name:\n                            continue\n                        else:\n                            link_has_cv = True\n"
+             "                elif isinstance(link, Pump):\n                    if link.end_node_name == tank_name:\n                        continue\n                    else:\n                        link_has_cv = True\n",
+         new="                one_way = bool(link.check_valve) if isinstance(link, Pipe) else isinstance(link, Pump)\n                if one_way:\n                    if tank_name == link.end_node_name:\n                        continue\n                    link_has_cv = True\n"),
+    dict(name="quiet-one-way-link-test-boolop", file=CORE, silent=True,
+         old="                if isinstance(link, Pipe):\n                    if link.check_valve:\n                        if link.start_node_name == tank_name:\n                            continue\n                        else:\n                            link_has_cv = True\n"
+             "                if isinstance(link, Pump):\n                    if link.start_node_name == tank_name:\n                        continue\n                    else:\n                        link_has_cv = True\n",
+         new="                if (isinstance(link, Pipe) and link.check_valve) or isinstance(link, Pump):\n                    if not link.start_node_name != tank_name:\n                        continue\n                    link_has_cv = True\n"),
 ]
